@@ -450,7 +450,7 @@ Proof.
                2:{ unfold target_word. cbn [strip_prefix]. destruct (N.eqb_spec 116 c) as [<-|]; [vm_compute in Hns; discriminate|reflexivity]. }
                cbn [do_skip]. rewrite (skip_none _ _ Hca). rewrite run_seq, run_opt.
                assert (Hkvp : forall q, run Utab SK r_kvp_args NonAtomic false (mkIn (c :: t) q) = Fail).
-               { intros q. unfold r_kvp_args. rewrite run_rule. cbn [inner_atomicity]. fold kv_body.
+               { intros q. change r_kvp_args with (ERule "kvp_args" RNormal false (ESeq (ESeq kv_body (ERep kv_body)) (EStr [59]))). rewrite run_rule. cbn [inner_atomicity].
                  rewrite run_seq, run_seq. unfold kv_body at 1. rewrite run_seq. rewrite (kvp_key_miss c t q Hns). reflexivity. }
                rewrite Hkvp. cbn [do_skip]. rewrite (skip_none _ _ Hca).
                rewrite (string_literal_miss c t _ NonAtomic H34). reflexivity. }
